@@ -56,6 +56,12 @@ namespace options
                const std::string& about = std::string(""),
                const std::string& group = std::string("arguments"));
 
+        parser(parser&& other);
+        parser& operator=(parser&& other);
+
+        parser(const parser&) = delete;
+        parser& operator=(const parser&) = delete;
+
         auto parse(int argc, const char* const argv[]) -> arguments;
         auto parse(const std::vector<options::user_input>& args) -> arguments;
 
